@@ -84,7 +84,7 @@ package controller
 //@   ensures[C02.perm]   floorOf(f) >= old(floorOf(f))
 //@   ensures[C10.detect] err == nil && supportsResult[fans.FeatureRpmSensor] && fans.fanNeverStop(f.fan) && old(f.lastSetPwm) != nil && old(fans.rpmAvg(f.fan)) <= 0.0 && f.minPwmOffset == old(f.minPwmOffset) ==> target != old(*f.lastSetPwm)
 //@   ensures[C10.step]   f.minPwmOffset != old(f.minPwmOffset) ==> err == nil && f.minPwmOffset == old(f.minPwmOffset) + 1 && old(f.lastSetPwm) != nil && target == old(*f.lastSetPwm) + 1 && fans.rpmAvg(f.fan) == 1.0 && old(fans.rpmAvg(f.fan)) <= 0.0
-//@   ensures[C10.max]    err == ErrFanStalledAtMaxPwm && old(f.lastSetPwm) != nil ==> fans.fanNeverStop(f.fan) && old(f.lastSetPwm) != nil && old(*f.lastSetPwm) >= old(fans.fanMax(f.fan)) && old(fans.rpmAvg(f.fan)) <= 0.0
+//@   ensures[C10.atmax]  supportsResult[fans.FeatureRpmSensor] && fans.fanNeverStop(f.fan) && old(f.lastSetPwm) != nil && old(fans.rpmAvg(f.fan)) <= 0.0 && old(*f.lastSetPwm) >= old(fans.fanMax(f.fan)) && f.minPwmOffset == old(f.minPwmOffset) && err == nil ==> target != old(*f.lastSetPwm)
 //@   ensures[C02.raise]  f.minPwmOffset > old(f.minPwmOffset) ==> err == nil && old(f.lastSetPwm) != nil && target > old(*f.lastSetPwm) && floorOf(f) == old(floorOf(f)) + 1
 //@   ensures[nowrite C01 C02 C05 C10] pwmWrites == old(pwmWrites)
 //@   modifies f.minPwmOffset, f.stats.MinPwmOffset, f.stats.IncreasedMinPwmCount, f.stats.UnexpectedPwmValueCount
